@@ -95,11 +95,31 @@ def padToSwapped {α} (fill : α) (target : Nat) (xs : List α) : List α :=
   fPad fill (padAfter target xs.length).toNat (padBefore target xs.length).toNat xs
 
 /-- `crop_to_largest` (`direct/data/bbox.py`), one axis: every item is cropped to the bounding box
-`crop_start = -(max_shape - shape) // 2` (unary minus binds tighter than `//`: this is `floor(-(max - n) / 2)`
-`= -ceil((max - n) / 2)`), `size = max_shape`; the out-of-range part is filled with `pad_value`. -/
-def cropToLargestStart (mx n : Int) : Int := (-(mx - n)) / 2
+`crop_start = -((max_shape - shape) // 2)` (repaired in 40ede8a: `floor((max - n) / 2)` fill values before the data, the
+convention of `center_crop` / `pad_tensor`), `size = max_shape`; the out-of-range part is filled with `pad_value`. -/
+def cropToLargestStart (mx n : Int) : Int := -((mx - n) / 2)
+/-- the pinned tree: `-(max_shape - shape) // 2` — unary minus binds tighter than `//`, i.e. `-ceil((max - n) / 2)` -/
+def cropToLargestStartPinned (mx n : Int) : Int := (-(mx - n)) / 2
 def cropToLargest1 {α} (fill : α) (mx : Nat) (xs : List α) : BBoxResult α :=
   cropToBbox fill xs (cropToLargestStart mx xs.length) mx
+def cropToLargest1Pinned {α} (fill : α) (mx : Nat) (xs : List α) : BBoxResult α :=
+  cropToBbox fill xs (cropToLargestStartPinned mx xs.length) mx
+
+/-- dtype of the patch `crop_to_bbox` allocates when the box leaves the data.  `full` = `torch.full(size, pad_value,
+dtype=data.dtype)` (repaired in 7c09337), `scaledOnes` = `pad_value * torch.ones(size, dtype=data.dtype)` (pinned tree:
+the product of a Python int and a bool tensor is promoted to int64), `noDtype` = allocation without `dtype=` (default
+float32 / float64; seeded C10-2). -/
+inductive PatchAlloc | full | scaledOnes | noDtype
+deriving DecidableEq, Repr
+inductive ElemType | bool | int | float | complex
+deriving DecidableEq, Repr
+def patchDtype (a : PatchAlloc) (d : ElemType) : ElemType :=
+  match a with
+  | .full => d
+  | .scaledOnes => if d = .bool then .int else d
+  | .noDtype => .float
+def PatchAlloc.ofString : String → Option PatchAlloc
+  | "full" => some .full | "scaledOnes" => some .scaledOnes | "noDtype" => some .noDtype | _ => none
 
 /-- `complex_center_crop`: bbox start for one cropped axis and the validity test
 (`all(_ >= 0 for _ in bbox[:ndim])`). -/
